@@ -43,7 +43,7 @@ PLAN = {
                                "keyword_tokens_checked": 2000, "password_secrets_checked": 3000, "pattern_lines_checked": 2000,
                                "survivor_lines": 15000}},
     "thorough": {"shards": 16, "cases": 12000, "timeout_s": 3300, "min_evaluations": 150000,
-                 "min_counters": {"lines_cleaned": 2000000}},
+                 "min_counters": {"lines_cleaned": 1000000}},
 }
 OBF_NAMES = ["hostname", "ip", "keyword", "mac", "password"]
 
